@@ -235,6 +235,10 @@ EvalComp(n, env, fuel) ==
       live  == Dev(env, "DynamicUsesLiveContext") /\ env.P.dyn /\ ~env.immediate
       cvars == IF live THEN env.perm ELSE env.vars
       crvars == IF live THEN env.rperm ELSE env.rvars
+      \* (the fills' lexical context is snapshotted from that same late context)
+      fills2 == IF live THEN [k \in 1..Len(fills) |->
+                                <<fills[k][1], [fills[k][2] EXCEPT !.env = [@ EXCEPT !.vars = cvars, !.rvars = crvars]]>>]
+                ELSE fills
       \* (an isolated copy is made at the tag, from the context as it is there)
       \* RenderContextExposedInIsolated (finding): the component rendered through
       \* Component.render(context=...) sees that context even in isolated mode.
@@ -244,7 +248,7 @@ EvalComp(n, env, fuel) ==
       env2  == [env EXCEPT !.vars = tvars, !.rvars = trvars, !.perm = tvars, !.rperm = trvars,
                            !.immediate = FALSE, !.ckey = TRUE, !.croot = root,
                            !.queue = IF env.ckey THEN env.queue ELSE inst,
-                           !.own = [has |-> TRUE, inst |-> inst, fills |-> fills]]
+                           !.own = [has |-> TRUE, inst |-> inst, fills |-> fills2]]
   IN IF n.body = "fills" /\ (fills = <<>> \/ ~NoDupNames(fills)) THEN Zone   \* body without any captured fill / duplicate names
      ELSE IF cd.err # "" THEN Fail(cd.err)
      ELSE IF Dev(env, "NestedRootCallbackKeyError") /\ env.ckey /\ env.croot # env.queue THEN Fail("KeyError")
